@@ -4,7 +4,7 @@
 import ast, json, os, sys
 sys.path.insert(0, os.path.dirname(os.path.dirname(os.path.abspath(__file__))))
 from sa.model import Model
-from sa.reflocals import ordered_locals, single_compares, compare_text
+from sa.reflocals import ordered_locals, single_compares, compare_text, two_armed_ifs
 
 m = Model(canonical_locals=False)
 out = {}
@@ -27,3 +27,13 @@ for q, f in sorted(m.funcs.items()):
 pc = os.path.join(os.path.dirname(os.path.dirname(os.path.abspath(__file__))), "spec", "reference_compares.json")
 json.dump(outc, open(pc, "w"), indent=0, sort_keys=True)
 print(len(outc), "functions with comparisons recorded")
+outi = {}
+for q, f in sorted(m.funcs.items()):
+    if f.parent is not None or isinstance(f.node, ast.Lambda):
+        continue
+    ts = [ast.unparse(n.test) for n in two_armed_ifs(f.node)]
+    if ts:
+        outi[q] = ts
+pi = os.path.join(os.path.dirname(os.path.dirname(os.path.abspath(__file__))), "spec", "reference_ifs.json")
+json.dump(outi, open(pi, "w"), indent=0, sort_keys=True)
+print(len(outi), "functions with two-armed ifs recorded")
